@@ -117,6 +117,30 @@ class ExprEval:
         return tuple(self.eval(st, e) for e in node.elts)
 
     def e_List(self, st, node):
+        if any(isinstance(e, ast.Starred) for e in node.elts):
+            # [a, *xs, b]: concatenation of the literal runs and the unpacked sequences
+            out, run = None, []
+
+            def flush(out, run):
+                if run or out is None:
+                    piece = Lst.of(run)
+                    out = piece if out is None else self.list_concat(out, piece)
+                return out
+
+            for e in node.elts:
+                if isinstance(e, ast.Starred):
+                    out = flush(out, run)
+                    run = []
+                    v = self.eval(st, e.value)
+                    if not isinstance(v, Lst):
+                        n, item = self.iter_protocol(st, v, e)
+                        v = Lst.of([item(i) for i in range(n)]) if is_concrete(n) else Lst(n, item, None)
+                    out = self.list_concat(out, v)
+                else:
+                    run.append(self.eval(st, e))
+            if run:
+                out = self.list_concat(out, Lst.of(run))
+            return out
         return Lst.of([self.eval(st, e) for e in node.elts])
 
     def e_Dict(self, st, node):
